@@ -278,3 +278,31 @@ func specUnsizedMem66(p *ParsedOperandPeg, mode int) bool {
 //@ option inline
 //@ requires o != nil
 //@ ensures[safe] true
+
+// Register-class predicates of operand types (used for the 66h decision of IN/OUT in pass 1 and
+// elsewhere): the 16-bit class is r16 and the eight named 16-bit registers, the 32-bit class r32 and
+// the eight named 32-bit registers, nothing else.
+func specR16Code(t OperandType) bool {
+	return t == CodeR16 || t == CodeAX || t == CodeCX || t == CodeDX || t == CodeBX || t == CodeSP || t == CodeBP || t == CodeSI || t == CodeDI
+}
+
+func specR32Code(t OperandType) bool {
+	return t == CodeR32 || t == CodeEAX || t == CodeECX || t == CodeEDX || t == CodeEBX || t == CodeESP || t == CodeEBP || t == CodeESI || t == CodeEDI
+}
+
+//@ func (OperandType).IsR16Type
+//@ props C01 C03
+//@ ensures[class] result0 == specR16Code(ot)
+
+//@ func (OperandType).IsR32Type
+//@ props C01 C03
+//@ ensures[class] result0 == specR32Code(ot)
+
+//@ func isR16Type
+//@ props C01 C03
+//@ ensures[class] result0 == specR16Code(opType)
+
+//@ func isR32Type
+//@ props C01 C03
+//@ ensures[class] result0 == specR32Code(opType)
+
